@@ -253,6 +253,10 @@ class C01(Prop):
             d = check_result(cfg, res.world, rec, st, ignore_exc=ign)
             if d is not None:
                 out.append(viol("result-not-from-own-reply", rec, **d))
+            elif rec.outcome == "return" and rec.sent == 0 and rec.value and cfg.stack != "hash" and \
+                    rec.method in ("version", "stats", "raw_command"):
+                # a result that only the server can know, returned by a call that asked the server nothing
+                out.append(viol("result-not-from-own-reply", rec, disc="nothing-was-sent", got=rec.enc_outcome()))
         out.sort(key=lambda v: (v["step"] if v["step"] is not None else -1))
         return out
 
